@@ -466,3 +466,48 @@ SEEDED["C09"] += [
 _MIS = "self.r0, self.stencil_length, self.pixel_scale, self.L0, 1e-10, seed=self._R\n"
 SEEDED["C04"] += [(IPS, _MIS, "self.r0, self.stencil_length, self.pixel_scale, self.L0, 1e-10, seed=self.random_seed\n", "K14")]
 BENIGN["C04"] += [(IPS, "        self._scrn = phasescreen.ft_phase_screen(\n            " + _MIS, "        gen = self._R\n        self._scrn = phasescreen.ft_phase_screen(\n            self.r0, self.stencil_length, self.pixel_scale, self.L0, 1e-10, seed=gen\n")]
+
+# C13: Karhunen-Loeve geometry / bookkeeping
+SEEDED["C13"] = [
+    (KL, "    ax = ax / (0.5 * nused)\n", "    ax = ax / (0.5 * nused - 0.5)\n", "A1"),
+    (KL, "% ncp - 0.5 * (ncp - 1)", "% ncp - 0.5 * ncp", "A1"),
+    (KL, "    ay = np.transpose(ax)\n", "    ay = ax\n", "A1"),
+    (KL, "    ap = (cr2 >= ri**2) & (cr2 <= 1.)\n", "    ap = (cr2 >= ri) & (cr2 <= 1.)\n", "A2"),
+    (KL, "    ap = (cr2 >= ri**2) & (cr2 <= 1.)\n", "    ap = (cr2 >= ri**2) | (cr2 <= 1.)\n", "A2"),
+    (KL, "    cr = (cr2 - ri**2) / (1 - ri**2) * nr  # - 0.5\n", "    cr = (cr2 - ri**2) / (1 - ri**2) * nr - 0.5\n", "A3"),
+    (KL, "    cp = (npp / dpi) * cp\n", "    cp = (npp / dpi) * cp + 0.5\n", "A3"),
+    (KL, "    cr = np.clip(cr, 1e-3, nr - 1.001)", "    cr = np.clip(cr, 1e-3, nr - 0.001)", "A3"),
+    (KL, "    r2 = ri**2 + (np.arange(nr)) / nr * (1 - ri**2)\n", "    r2 = ri**2 + (np.arange(nr) + 0.5) / nr * (1 - ri**2)\n", "A3"),
+    (KL, "    phi1 = np.arange(npp) / npp * 2.0 * np.pi\n", "    phi1 = np.arange(npp) / (npp - 1) * 2.0 * np.pi\n", "A3"),
+    (KL, "        cd = cd * cpgeom['ap']\n", "        cd = cd * (cpgeom['cr'] > 0)\n", "A4"),
+    (KL, "                         order=1, mode='nearest')", "                         order=1, mode='constant')", "A4"),
+    (KL, "        kl[i, :, :] = pol2car(pc1, gkl_sfi(polar_base, i), mask=mask)\n", "        kl[i, :, :] = pol2car(pc1, gkl_sfi(polar_base, i), mask=True)\n", "A5"),
+    (KL, "    for i in range(nmax):\n        kl[i, :, :]", "    for i in range(nmax - 1):\n        kl[i, :, :]", "A5"),
+    (KL, "    varKL = polar_base['evals']\n", "    varKL = polar_base['npo']\n", "A5"),
+    (KL, "    pupil = np.array(pc1['ap'], dtype='float')\n", "    pupil = np.array(set_pctr(polar_base, ncp=dim)['ap'], dtype='float')\n", "A5"),
+    (KL, "    gklbasis = {'nr': nr, 'np': npp, 'nfunc': nfunc, 'ri': ri,", "    gklbasis = {'nr': nr, 'np': npp, 'nfunc': nfunc, 'ri': 0.25,", "A5"),
+    (KL, "    oord = kl_basis['ord'][i]\n", "    oord = kl_basis['ord'][i - 1]\n", "A6"),
+    (KL, "    sf = rad_bas * az_bas\n", "    sf = rad_bas + az_bas\n", "A6"),
+    (KL, "        gklazi[i, :] = np.cos((i // 2 + 1) * theta)\n", "        gklazi[i, :] = np.cos((i // 2) * theta)\n", "A7"),
+    (KL, "    for i in range(2, nord, 2):\n        # odd\n", "    for i in range(3, nord, 2):\n        # odd\n", "A7"),
+    (KL, "    theta = np.arange(npp) * (2 * np.pi / npp)\n", "    theta = np.arange(npp) * (2 * np.pi / (npp - 1))\n", "A7"),
+    (KL, "        rnm = 1. / np.sqrt((j + 1) * (j + 2))\n", "        rnm = 1. / np.sqrt((j + 1) * (j + 1))\n", "A8"),
+    (KL, "        s[j + 1, j] = (-1) * (j + 1) * rnm\n", "        s[j + 1, j] = (-1) * j * rnm\n", "A8"),
+    (KL, "    d = (1 - ri**2) / nr\n    # r2", "    d = (1 - ri) / nr\n    # r2", "A9"),
+    (KL, "    r2 = ri**2 + d * np.arange(nr) + d / 16\n", "    r2 = ri**2 + d * np.arange(nr) + d * 1.5\n", "A9"),
+    (KL, "    a = (np.argsort(-1 * evs))[0:nfunc]\n", "    a = (np.argsort(evs))[0:nfunc]\n", "A10"),
+    (KL, "    fktom = (1. - ri**2) / nr\n", "    fktom = (1. - ri) / nr\n", "A11"),
+    (KL, "    fevtos = np.sqrt(2 * nr)\n", "    fevtos = np.sqrt(nr)\n", "A11"),
+    (KL, "    kers[:, :, nxt] = np.sqrt(nr) * vs.T\n", "    kers[:, :, nxt] = vs.T\n", "A11"),
+]
+BENIGN["C13"] = [
+    (KL, "    ap = (cr2 >= ri**2) & (cr2 <= 1.)\n", "    ap = (cr2 <= 1.) & (cr2 >= ri**2)\n"),
+    (KL, "    ap = (cr2 >= ri**2) & (cr2 <= 1.)\n", "    ap = (cr2 > ri**2) & (cr2 < 1.)\n"),
+    (KL, "    cr2 = (ax**2 + ay**2)\n", "    cr2 = ax * ax + ay * ay\n"),
+    (KL, "    theta = np.arange(npp) * (2 * np.pi / npp)\n", "    theta = 2 * np.pi * np.arange(npp) / npp\n"),
+    (KL, "        gklazi[i, :] = np.cos((i // 2 + 1) * theta)\n", "        gklazi[i, :] = np.cos(((i + 1) // 2) * theta)\n"),
+    (KL, "    fevtos = np.sqrt(2 * nr)\n", "    fevtos = (2. * nr) ** 0.5\n"),
+    (KL, "    pc1 = set_pctr(polar_base, ncp=dim, ncmar=0)\n", "    pc1 = pcgeom(polar_base['nr'], polar_base['np'], dim, polar_base['ri'], 0)\n"),
+    (KL, "        rnm = 1. / np.sqrt((j + 1) * (j + 2))\n", "        rnm = ((j + 1.) * (j + 2.)) ** -0.5\n"),
+    (KL, "    d = (1 - ri**2) / nr\n    # r2", "    d = (1 - ri * ri) / float(nr)\n    # r2"),
+]
